@@ -12,7 +12,7 @@ use bytes::Bytes;
 use futures::{Sink, SinkExt};
 use selium_protocol::utils::encode_message_batch;
 use selium_protocol::{BiStream, Frame, MessagePayload, PublisherPayload, TopicName};
-use selium_std::errors::{CodecError, Result, SeliumError};
+use selium_std::errors::{CodecError, ProtocolError, Result, SeliumError};
 use selium_std::traits::codec::MessageEncoder;
 use selium_std::traits::compression::Compress;
 use std::marker::PhantomData;
@@ -249,17 +249,31 @@ where
         let batch = self.batch.as_mut().unwrap();
 
         let messages = batch.drain();
-        let mut bytes = encode_message_batch(messages);
+        let mut bytes = encode_message_batch(messages.clone());
 
         if let Some(comp) = &self.compression {
             bytes = comp.compress(bytes).map_err(CodecError::CompressFailure)?;
         }
 
         let frame = Frame::BatchMessage(bytes);
-        self.stream.start_send_unpin(frame)?;
-        batch.update_last_run(now);
 
-        Ok(())
+        let result = match self.stream.start_send_unpin(frame) {
+            // A batch travels in one frame. Messages that fit a frame each but not together
+            // are sent one by one instead of being lost with the refused batch.
+            Err(SeliumError::Protocol(ProtocolError::PayloadTooLarge(..))) if messages.len() > 1 => {
+                messages
+                    .into_iter()
+                    .map(|message| self.send_single(message))
+                    .fold(Ok(()), |result, sent| result.and(sent))
+            }
+            result => result,
+        };
+
+        if result.is_ok() {
+            self.batch.as_mut().unwrap().update_last_run(now);
+        }
+
+        result
     }
 
     fn flush_batch(&mut self) -> Result<()> {
